@@ -77,6 +77,7 @@ type Thread struct {
 	res       opResult
 	done      bool
 	Library   bool       // spawned from inside the code under test
+	hist      uint64     // hash of everything this thread has observed so far (state-key pruning)
 	held      []*muState // mutexes this thread holds (read or write), for the dynamic lockset check
 	// blockedOn describes the pending op at the end of the execution (for reports)
 }
@@ -124,6 +125,9 @@ type Sched struct {
 	sysEpoch  int
 	Lockset   []string // guarded state touched without its mutex (lockset assertions)
 	touched   map[uintptr]*touchState
+	mus       []*muState
+	unstable  bool
+	stable    map[uintptr]string
 }
 
 var cur *Sched
@@ -457,11 +461,90 @@ func (s *Sched) yield(o *op) opResult {
 		t.completed = false
 		t.pend = nil
 		s.trace(t, fmt.Sprintf("%s %s (by partner) -> %d %v", kindName[o.kind], o.label, t.res.idx, t.res.ok))
+		t.fold(kindName[o.kind], o.label, t.res.idx, t.res.ok, t.res.val)
 		return t.res
 	}
 	r := s.perform(t, o)
 	t.pend = nil
+	t.fold(kindName[o.kind], o.label, r.idx, r.ok, r.val)
 	return r
+}
+
+// fold mixes an observation into the thread's history hash.
+func (t *Thread) fold(parts ...any) {
+	h := t.hist
+	if h == 0 {
+		h = 1469598103934665603
+	}
+	for _, p := range parts {
+		var str string
+		switch v := p.(type) {
+		case string:
+			str = v
+		case nil:
+			str = "<nil>"
+		default:
+			str = fmt.Sprintf("%v", v)
+		}
+		for i := 0; i < len(str); i++ {
+			h ^= uint64(str[i])
+			h *= 1099511628211
+		}
+		h ^= 0xfe
+		h *= 1099511628211
+	}
+	t.hist = h
+}
+
+// Observe folds something the running thread has just learnt (a syscall
+// result, the return value of an API call) into its history.
+func Observe(parts ...any) {
+	s := cur
+	if s == nil || s.cur == nil || s.aborting || s.ended {
+		return
+	}
+	s.cur.fold(parts...)
+}
+
+// Key renders the global state at a scheduling point: every thread's history,
+// pending operation and completion status, every registered mutex and channel,
+// plus whatever the harness adds (kernel queue lengths, library tables). Two
+// execution prefixes with equal keys have equal futures: each thread is a
+// deterministic function of its own history, and the shared state is listed.
+// Objects are identified by the stable ids RegisterTree gave them; an object
+// first used without one makes the key unusable (returns ""), so nothing is
+// ever merged on an unstable name.
+func (s *Sched) Key(extra string) string {
+	if s.unstable {
+		return ""
+	}
+	var b strings.Builder
+	for _, t := range s.threads {
+		fmt.Fprintf(&b, "T%s:%t:%x", t.Name, t.done, t.hist)
+		if t.pend != nil {
+			fmt.Fprintf(&b, ":%s:%s:%t", kindName[t.pend.kind], t.pend.label, t.completed)
+			if t.completed {
+				fmt.Fprintf(&b, ":%d:%t:%v", t.res.idx, t.res.ok, t.res.val)
+			}
+		}
+		b.WriteByte(';')
+	}
+	var ms []string
+	for _, m := range s.mus {
+		ms = append(ms, fmt.Sprintf("%s=%t/%d/%d", m.label, m.w, m.r, m.owner))
+	}
+	sort.Strings(ms)
+	b.WriteString(strings.Join(ms, ","))
+	b.WriteByte('|')
+	var cs []string
+	for _, c := range s.chans {
+		cs = append(cs, fmt.Sprintf("%s=%t:%v", c.label, c.closed, c.buf))
+	}
+	sort.Strings(cs)
+	b.WriteString(strings.Join(cs, ","))
+	b.WriteByte('|')
+	b.WriteString(extra)
+	return b.String()
 }
 
 // Blocked describes, for the end state, every thread that has not finished.
